@@ -1,11 +1,18 @@
 // C12 — maps, vectors and strings obey collection laws under the language's equality.
 //
 // Part A (explicit-state): breadth-first search over sequences of `insert k v` / `remove k`
-//   applied to `{ }`; the state key is the canonical association-list model (key class -> value);
+//   applied to `{ }`; the state key is the canonical association list (key class -> value);
 //   every transition is executed on the real interpreter on a `dup`-ed handle and after every step
-//   the invariant is evaluated: `get k` for EVERY key of the alphabet, `foreach` contents,
-//   `equal?` (both argument orders) with a literal rebuilt from the model, `equal?` false with a
-//   literal of a different model, and the old handle unchanged.
+//   the invariant is evaluated: `foreach` contents, `get k` for EVERY key of the alphabet,
+//   `equal?` (both argument orders) with a literal rebuilt from the content, `equal?` false with a
+//   literal of a different content, and the old handle unchanged.
+//   The search runs (1) once per single-type key family (nil, flags, ints, reals, strings, bit-strings,
+//   vectors, maps; tagged variants with their base type) where the open finding
+//   `map-key-collision:cross-type` cannot interfere, to closure and strictly; (2) on the mixed-type
+//   alphabet of DESIGN.md, where a divergence that involves two keys differing in type which the
+//   implementation's key order calls Equal is filed under that open finding and the search goes on from
+//   the implementation's observed content (the model is re-synchronised); every other divergence
+//   keeps its own key.
 // Part B (exhaustive product): every map literal of <= L pairs over (key, value).
 // Part C (exhaustive product): vector / string words against a `Vec` model for every vector of
 //   length 0..N over a 4-element alphabet and EVERY index of the index alphabet (incl. extremes).
@@ -75,6 +82,33 @@ pub fn key_alphabet(seed: u64) -> Vec<KeyDef> {
         v.push(kd(&format!("{}", n), "int", 16, false));
     }
     v
+}
+
+/// single-type key families: inside one family no two keys differ in type (vectors and maps hold ints only),
+/// so the open cross-type finding cannot interfere and the exploration must be violation-free.
+/// Tagged variants are grouped with their base type (a tagged key IS the bare key).
+pub fn key_families() -> Vec<(&'static str, Vec<KeyDef>)> {
+    let tag = " ^{ \"t\" \"k\" ^}";
+    let fam = |ty: &'static str, srcs: &[&str], tagged_of: usize, same_as: &[(usize, usize)]| {
+        let mut v: Vec<KeyDef> = srcs.iter().enumerate().map(|(i, s)| kd(s, ty, i as u8, false)).collect();
+        for (i, j) in same_as {
+            v[*i].class = v[*j].class;
+        }
+        let t = kd(&format!("{}{}", srcs[tagged_of], tag), ty, v[tagged_of].class, true);
+        v.push(t);
+        v
+    };
+    vec![
+        ("nil", fam("nil", &["nil"], 0, &[])),
+        ("flag", fam("flag", &["true", "false"], 0, &[])),
+        ("int", fam("int", &["0", "1", "-1", "1180591620717411303424", "-170141183460469231731687303715884105728"], 1, &[])),
+        // -0.0 and 0.0 are one key: the language's equality says they are equal
+        ("real", fam("real", &["1.0", "2.5", "0.0", "-0.0", "1.0e300", "-1.5"], 1, &[(3, 2)])),
+        ("str", fam("str", &["\"a\"", "\"1\"", "\"\"", "\"ab\"", "\"A\""], 0, &[])),
+        ("bitstr", fam("bitstr", &["|01|", "|x|", "|.|", "|0100|", "|x.|"], 1, &[])),
+        ("vec", fam("vec", &["[ ]", "[ 1 ]", "[ 2 ]", "[ 1 2 ]", "[ 1 1 ]"], 1, &[])),
+        ("map", fam("map", &["{ }", "{ 10 1 }", "{ 11 1 }", "{ 10 2 }", "{ 10 1 10 2 }"], 0, &[])),
+    ]
 }
 
 const VALS: &[&str] = &["10", "\"v\""];
@@ -180,12 +214,12 @@ fn apply(m: &mut Model, op: Op, kdefs: &[KeyDef]) {
         }
     }
 }
-fn model_key(m: &Model) -> u64 {
+fn model_key(m: &Model, tainted: bool) -> u64 {
     let mut k = 0u64;
     for (c, v) in m {
         k |= ((*v as u64) + 1) << (2 * (*c as u64));
     }
-    k
+    k | ((tainted as u64) << 63)
 }
 fn path_src(path: &[Op], kdefs: &[KeyDef]) -> String {
     let mut s = String::from("{ }");
@@ -209,32 +243,42 @@ fn model_literal(m: &Model, al: &Alpha, kdefs: &[KeyDef]) -> String {
 fn model_json(m: &Model, al: &Alpha, kdefs: &[KeyDef]) -> J {
     J::A(m.iter().map(|(c, v)| J::A(vec![js(kdefs[al.canon[c]].src.clone()), js(VALS[*v as usize])])).collect())
 }
-
-/// two keys of different equality classes that the implementation's ordering calls Equal
-/// (used ONLY to name the finding, never for the verdict)
-fn find_collision(al: &Alpha, kdefs: &[KeyDef], involved: &[usize]) -> Option<(usize, usize)> {
-    for (i, &a) in involved.iter().enumerate() {
-        for &b in &involved[i + 1..] {
-            if kdefs[a].class != kdefs[b].class {
-                let eq = guarded(|| al.keys[a].cmp(&al.keys[b]) == std::cmp::Ordering::Equal).unwrap_or(false);
-                if eq {
-                    return Some((a, b));
-                }
-            }
-        }
-    }
-    None
-}
-
 fn pair_name(kdefs: &[KeyDef], a: usize, b: usize) -> String {
     let (x, y) = (kdefs[a].ty, kdefs[b].ty);
     if x <= y { format!("{}-{}", x, y) } else { format!("{}-{}", y, x) }
 }
 
-pub struct Fail {
-    pub observer: String,
-    pub detail: String,
-    pub probe_key: Option<usize>,
+/// do the two values differ in TYPE at the first place where they differ? (vectors and maps are walked)
+fn deep_cross_type(a: &Cell, b: &Cell) -> bool {
+    match (a.value(), b.value()) {
+        (Cell::Vector(x), Cell::Vector(y)) => {
+            for (p, q) in x.iter().zip(y.iter()) {
+                if p != q {
+                    return deep_cross_type(p, q);
+                }
+            }
+            false
+        }
+        (Cell::Map(x), Cell::Map(y)) => {
+            for ((k1, v1), (k2, v2)) in x.iter().zip(y.iter()) {
+                if k1 != k2 {
+                    return deep_cross_type(k1, k2);
+                }
+                if v1 != v2 {
+                    return deep_cross_type(v1, v2);
+                }
+            }
+            false
+        }
+        (x, y) => x.type_name() != y.type_name(),
+    }
+}
+
+/// the open finding `map-key-collision:cross-type`, as a predicate over two alphabet keys: they are different
+/// keys, they differ in type, and the implementation's key order calls them Equal.
+/// Used ONLY to classify a divergence that the model has already established, never to create one.
+fn cross_collide(al: &Alpha, kdefs: &[KeyDef], a: usize, b: usize) -> bool {
+    kdefs[a].class != kdefs[b].class && deep_cross_type(&al.keys[a], &al.keys[b]) && guarded(|| al.keys[a].cmp(&al.keys[b]) == std::cmp::Ordering::Equal).unwrap_or(false)
 }
 
 struct Obs<'a> {
@@ -246,6 +290,9 @@ struct Obs<'a> {
 impl<'a> Obs<'a> {
     fn new(base: &'a Xstate) -> Obs<'a> {
         Obs { base, sx: base.clone(), evals: 0 }
+    }
+    fn reset(&mut self) {
+        self.sx = self.base.clone();
     }
     /// push `args`, evaluate `src`; returns the whole stack or the failure text
     fn run(&mut self, args: &[&Cell], src: &str, then_push: &[&Cell], src2: &str) -> Result<Vec<Cell>, String> {
@@ -286,144 +333,349 @@ fn is_false(c: &Cell) -> bool {
     matches!(c, Cell::Flag(false))
 }
 
-/// the invariant of part A/B: every observer of the real map `m` agrees with the model
-fn check_map(ob: &mut Obs, al: &Alpha, kdefs: &[KeyDef], m: &Cell, model: &Model) -> Vec<Fail> {
-    ob.sx = ob.base.clone();
-    match check_map_gets(ob, al, kdefs, m, model) {
-        v if !v.is_empty() => v,
-        _ => check_map_rest(ob, al, kdefs, m, model).into_iter().collect(),
-    }
+/// one finding of the map invariant: key, observer, text, colliding pair (for the collision key)
+struct Finding {
+    key: String,
+    observer: &'static str,
+    detail: String,
+    pair: Option<String>,
+    probe: Option<usize>,
 }
 
-/// 1. get k for EVERY key of the alphabet (all failing probes are returned: each names its own finding)
-fn check_map_gets(ob: &mut Obs, al: &Alpha, kdefs: &[KeyDef], m: &Cell, model: &Model) -> Vec<Fail> {
-    let mut fails = vec![];
-    for (ki, k) in kdefs.iter().enumerate() {
-        let src = format!("{} get", k.src);
-        let want = model.get(&k.class).map(|v| &al.vals[*v as usize]);
-        match ob.run(&[m], &src, &[], "") {
-            Ok(st) => {
-                let ok = st.len() == 1
-                    && match want {
-                        Some(w) => render(&st[0]) == render(w),
-                        None => matches!(st[0], Cell::Nil),
-                    };
-                if !ok {
-                    fails.push(Fail {
-                        observer: "get".into(),
-                        detail: format!("`{}` gives {:?}, model says {}", src, st.iter().map(render).collect::<Vec<_>>(), want.map(render).unwrap_or("nil (absent)".into())),
-                        probe_key: Some(ki),
-                    });
-                }
-            }
-            Err(e) => fails.push(Fail { observer: "get".into(), detail: format!("`{}`: {}", src, e), probe_key: Some(ki) }),
-        }
-    }
-    fails
+/// what one judged map looks like
+struct Verdict {
+    findings: Vec<Finding>,
+    /// the state to continue from (the implementation's observed content) and its taint; None = do not expand
+    next: Option<(Model, bool)>,
+    /// the implementation's content differs from the model's because of a cross-type collision: model re-synchronised
+    resynced: bool,
+    /// only `get` probes of other-typed keys diverge, the content agrees
+    probe_only: bool,
+    /// the observed content cannot be written as one value per key (the same key twice): not expanded
+    unrepresentable: bool,
+    equal_skipped: bool,
 }
 
-fn check_map_rest(ob: &mut Obs, al: &Alpha, kdefs: &[KeyDef], m: &Cell, model: &Model) -> Option<Fail> {
-    // 2. foreach contents = the pairs of the model, in any order
-    match ob.run(&[m], "foreach I loop", &[], "") {
-        Ok(st) => {
-            let mut ok = true;
-            if model.is_empty() {
-                // `{ } foreach I loop` may leave the (empty) collection itself on the stack: not claimed by C12
-                ok = st.is_empty() || (st.len() == 1 && st[0] == *m && matches!(st[0].value(), Cell::Map(_)));
-            } else if st.len() != 2 * model.len() {
-                ok = false;
-            } else {
-                let mut left: Vec<(u8, u8)> = model.iter().map(|(c, v)| (*c, *v)).collect();
-                for kv in st.chunks(2) {
-                    let pos = left.iter().position(|(c, v)| al.keys[al.canon[c]] == kv[0] && render(&al.vals[*v as usize]) == render(&kv[1]));
-                    match pos {
-                        Some(p) => {
-                            left.swap_remove(p);
-                        }
-                        None => ok = false,
+const CROSS_KEY: &str = "map-key-collision:cross-type";
+
+/// The invariant of parts A/B. `expected` = what the association-list model says the map holds now.
+/// `cross_now` = (a, b): the step that produced this map involved two keys that collide across types
+/// (operation key against an entry, or two keys of a literal); `tainted` = an earlier step on this path did.
+/// A divergence is filed under the open finding only if such a collision is involved; every other
+/// divergence gets its own key. Whenever the observed content can be written as a model, the search
+/// continues from it.
+fn judge(ob: &mut Obs, al: &Alpha, kdefs: &[KeyDef], m: &Cell, expected: &Model, expected_alt: &BTreeMap<u8, Vec<u8>>, cross_now: Option<(usize, usize)>, tainted: bool) -> Verdict {
+    let mut v = judge_inner(ob, al, kdefs, m, expected, expected_alt, cross_now, tainted);
+    // name the finding: two different keys of ONE type that the key order calls Equal (the defect repaired in
+    // b687b75) keep the key `map-key-collision:same-type`
+    for f in v.findings.iter_mut() {
+        if f.key == "map-mismatch:get" || f.key == "map-mismatch:foreach" {
+            let mut inv: Vec<usize> = f.probe.into_iter().collect();
+            inv.extend(expected.keys().map(|c| al.canon[c]));
+            let mut hit = None;
+            for (i, a) in inv.iter().enumerate() {
+                for b in &inv[i + 1..] {
+                    if kdefs[*a].class != kdefs[*b].class && !deep_cross_type(&al.keys[*a], &al.keys[*b]) && guarded(|| al.keys[*a].cmp(&al.keys[*b]) == std::cmp::Ordering::Equal).unwrap_or(false) {
+                        hit = hit.or(Some((*a, *b)));
                     }
                 }
             }
-            if !ok {
-                return Some(Fail {
-                    observer: "foreach".into(),
-                    detail: format!("`foreach I loop` leaves {:?}, model has {} pair(s)", st.iter().map(render).collect::<Vec<_>>(), model.len()),
-                    probe_key: None,
-                });
+            if let Some((a, b)) = hit {
+                f.key = "map-key-collision:same-type".to_string();
+                f.pair = Some(format!("{} (`{}` and `{}`)", pair_name(kdefs, a, b), kdefs[a].src, kdefs[b].src));
             }
         }
-        Err(e) => return Some(Fail { observer: "foreach".into(), detail: format!("`foreach I loop`: {}", e), probe_key: None }),
     }
-    // 3. equal? with a literal rebuilt from the model, both argument orders
-    let lit = model_literal(model, al, kdefs);
-    let r1 = ob.run(&[m], &format!("{} equal?", lit), &[], "");
-    let r2 = ob.run(&[], &lit, &[m], "equal?");
-    for (which, r) in [("map literal equal?", r1), ("literal map equal?", r2)] {
-        match r {
-            Ok(st) if st.len() == 1 && is_true(&st[0]) => {}
-            Ok(st) => {
-                return Some(Fail { observer: "equal?".into(), detail: format!("{} with `{}` gives {:?}, expected true", which, lit, st.iter().map(render).collect::<Vec<_>>()), probe_key: None })
-            }
-            Err(e) => return Some(Fail { observer: "equal?".into(), detail: format!("{} with `{}`: {}", which, lit, e), probe_key: None }),
-        }
-    }
-    // 4. equal? with a literal of a DIFFERENT model must be false
-    let mut other = model.clone();
-    if let Some((c, v)) = model.iter().next() {
-        other.insert(*c, 1 - *v);
-    } else {
-        other.insert(kdefs[3].class, 0);
-    }
-    let lit2 = model_literal(&other, al, kdefs);
-    match ob.run(&[m], &format!("{} equal?", lit2), &[], "") {
-        Ok(st) if st.len() == 1 && is_false(&st[0]) => {}
-        Ok(st) => {
-            return Some(Fail { observer: "equal?".into(), detail: format!("equal? with the different map `{}` gives {:?}, expected false", lit2, st.iter().map(render).collect::<Vec<_>>()), probe_key: None })
-        }
-        Err(e) => return Some(Fail { observer: "equal?".into(), detail: format!("equal? with `{}`: {}", lit2, e), probe_key: None }),
-    }
-    None
+    v
 }
 
-struct MapStats {
-    transitions: u64,
-    evals: u64,
-    pruned: u64,
-    collisions: BTreeMap<String, u64>,
-    ops: BTreeMap<String, u64>,
-}
-
-/// name the finding for a failed map invariant
-fn map_fail_key(al: &Alpha, kdefs: &[KeyDef], involved: &[usize], f: &Fail, st: &mut MapStats) -> (String, Option<String>) {
-    if f.detail.contains("panic:") {
-        return (format!("panic:map-{}", f.observer), None);
-    }
-    let mut others: Vec<usize> = vec![];
-    for i in involved {
-        if !others.contains(i) {
-            others.push(*i);
+fn judge_inner(ob: &mut Obs, al: &Alpha, kdefs: &[KeyDef], m: &Cell, expected: &Model, expected_alt: &BTreeMap<u8, Vec<u8>>, cross_now: Option<(usize, usize)>, tainted: bool) -> Verdict {
+    ob.reset();
+    let mut v = Verdict { findings: vec![], next: None, resynced: false, probe_only: false, unrepresentable: false, equal_skipped: false };
+    let own = |observer: &'static str, detail: String| Finding { key: if detail.contains("panic:") { format!("panic:map-{}", observer) } else { format!("map-mismatch:{}", observer) }, observer, detail, pair: None, probe: None };
+    // ---- content, as `foreach` shows it
+    let st = match ob.run(&[m], "foreach I loop", &[], "") {
+        Ok(st) => st,
+        Err(e) => {
+            v.findings.push(own("foreach", format!("`foreach I loop`: {}", e)));
+            return v;
         }
-    }
-    let hit = match f.probe_key {
-        // a failing `get k`: the collision, if any, is between k and a key that is (or was) in the map
-        Some(p) => others.iter().copied().find_map(|o| find_collision(al, kdefs, &[p, o])),
-        None => find_collision(al, kdefs, &others),
     };
-    if let Some((a, b)) = hit {
-        let pn = pair_name(kdefs, a, b);
-        bump(&mut st.collisions, &pn);
-        let kind = if kdefs[a].ty == kdefs[b].ty { "same-type" } else { "cross-type" };
-        return (format!("map-key-collision:{}", kind), Some(format!("{} (`{}` and `{}`)", pn, kdefs[a].src, kdefs[b].src)));
+    // `{ } foreach I loop` may leave the (empty) collection itself on the stack: not claimed by C12
+    let st: Vec<Cell> = if st.len() == 1 && st[0] == *m && matches!(st[0].value(), Cell::Map(x) if x.size() == 0) { vec![] } else { st };
+    let shown = || format!("{:?}", st.iter().map(render).collect::<Vec<_>>());
+    if st.len() % 2 != 0 {
+        v.findings.push(own("foreach", format!("`foreach I loop` leaves {} (not pairs)", shown())));
+        return v;
     }
-    (format!("map-mismatch:{}", f.observer), None)
+    let mut content = Model::new();
+    let mut duplicate = false;
+    for kv in st.chunks(2) {
+        let ki = (0..kdefs.len()).find(|i| al.keys[*i] == kv[0] && al.keys[*i].value().type_name() == kv[0].value().type_name());
+        let vi = (0..al.vals.len()).find(|i| render(&al.vals[*i]) == render(&kv[1]));
+        match (ki, vi) {
+            (Some(ki), Some(vi)) => {
+                if content.insert(kdefs[ki].class, vi as u8).is_some() {
+                    duplicate = true;
+                }
+            }
+            _ => {
+                v.findings.push(own("foreach", format!("`foreach I loop` leaves {}: a key or value that was never inserted", shown())));
+                return v;
+            }
+        }
+    }
+    let collision_finding = |pair: Option<(usize, usize)>, observer: &'static str, detail: String| Finding {
+        key: CROSS_KEY.to_string(),
+        observer,
+        detail,
+        pair: Some(match pair {
+            Some((a, b)) => format!("{} (`{}` and `{}`)", pair_name(kdefs, a, b), kdefs[a].src, kdefs[b].src),
+            None => "an earlier cross-type collision on this path left the tree out of order".to_string(),
+        }),
+        probe: None,
+    };
+    // the content must be the model's; for a key written twice in one literal any written value is allowed
+    let content_ok = !duplicate
+        && content.len() == expected.len()
+        && content.iter().all(|(c, val)| expected.get(c) == Some(val) || expected_alt.get(c).map(|a| a.contains(val)).unwrap_or(false))
+        && expected.keys().all(|c| content.contains_key(c));
+    let mut tainted_now = tainted;
+    if !content_ok {
+        let detail = format!("`foreach I loop` leaves {}, the model holds {:?}", shown(), expected.iter().map(|(c, val)| format!("{}=>{}", kdefs[al.canon[c]].src, VALS[*val as usize])).collect::<Vec<_>>());
+        if cross_now.is_some() || tainted {
+            v.findings.push(collision_finding(cross_now, "foreach", detail));
+            v.resynced = true;
+            tainted_now = true;
+            if duplicate {
+                v.unrepresentable = true;
+                return v;
+            }
+        } else {
+            v.findings.push(own("foreach", detail));
+            return v;
+        }
+    }
+    if content.len() <= 1 {
+        // a tree of at most one node cannot be out of order
+        tainted_now = false;
+    }
+    // ---- get k for EVERY key of the alphabet, against the observed content
+    let mut own_failure = false;
+    for (ki, k) in kdefs.iter().enumerate() {
+        let src = format!("{} get", k.src);
+        let want = content.get(&k.class).map(|x| &al.vals[*x as usize]);
+        let got = ob.run(&[m], &src, &[], "");
+        let ok = match &got {
+            Ok(s) => s.len() == 1 && match want {
+                Some(w) => render(&s[0]) == render(w),
+                None => matches!(s[0], Cell::Nil),
+            },
+            Err(_) => false,
+        };
+        if ok {
+            continue;
+        }
+        let detail = match &got {
+            Ok(s) => format!("`{}` gives {:?}, the map holds {}", src, s.iter().map(render).collect::<Vec<_>>(), want.map(render).unwrap_or("nothing under that key (nil expected)".into())),
+            Err(e) => format!("`{}`: {}", src, e),
+        };
+        let is_panic = matches!(&got, Err(e) if e.starts_with("panic"));
+        let partner = content.keys().map(|c| al.canon[c]).find(|e| cross_collide(al, kdefs, *e, ki));
+        if !is_panic && (partner.is_some() || tainted_now) {
+            if !v.findings.iter().any(|f| f.key == CROSS_KEY) {
+                v.findings.push(collision_finding(partner.map(|e| (e, ki)), "get", detail));
+            }
+            if !v.resynced {
+                v.probe_only = true;
+            }
+        } else {
+            if !v.findings.iter().any(|f| f.observer == "get" && f.key != CROSS_KEY) {
+                let mut f = own("get", detail);
+                f.probe = Some(ki);
+                v.findings.push(f);
+            }
+            own_failure = true;
+        }
+    }
+    if own_failure {
+        return v;
+    }
+    // ---- equal? with a literal rebuilt from the content, both argument orders, and a different literal.
+    // A tree that a collision has put out of order, or whose keys collide among themselves, makes the
+    // literal (and map equality) meaningless: skipped and counted.
+    let keys_now: Vec<usize> = content.keys().map(|c| al.canon[c]).collect();
+    let internal_collision = keys_now.iter().enumerate().any(|(i, a)| keys_now[i + 1..].iter().any(|b| cross_collide(al, kdefs, *a, *b)));
+    if tainted_now || internal_collision {
+        v.equal_skipped = true;
+    } else {
+        let lit = model_literal(&content, al, kdefs);
+        let r1 = ob.run(&[m], &format!("{} equal?", lit), &[], "");
+        let r2 = ob.run(&[], &lit, &[m], "equal?");
+        for (which, r) in [("map literal equal?", r1), ("literal map equal?", r2)] {
+            match r {
+                Ok(s) if s.len() == 1 && is_true(&s[0]) => {}
+                Ok(s) => {
+                    v.findings.push(own("equal?", format!("{} with `{}` gives {:?}, expected true", which, lit, s.iter().map(render).collect::<Vec<_>>())));
+                    return v;
+                }
+                Err(e) => {
+                    v.findings.push(own("equal?", format!("{} with `{}`: {}", which, lit, e)));
+                    return v;
+                }
+            }
+        }
+        let mut other = content.clone();
+        if let Some((c, val)) = content.iter().next() {
+            other.insert(*c, 1 - *val);
+        } else {
+            other.insert(kdefs[0].class, 0);
+        }
+        let lit2 = model_literal(&other, al, kdefs);
+        match ob.run(&[m], &format!("{} equal?", lit2), &[], "") {
+            Ok(s) if s.len() == 1 && is_false(&s[0]) => {}
+            Ok(s) => {
+                v.findings.push(own("equal?", format!("equal? with the different map `{}` gives {:?}, expected false", lit2, s.iter().map(render).collect::<Vec<_>>())));
+                return v;
+            }
+            Err(e) => {
+                v.findings.push(own("equal?", format!("equal? with `{}`: {}", lit2, e)));
+                return v;
+            }
+        }
+    }
+    v.next = Some((content, tainted_now));
+    v
 }
 
-fn model_keys_involved(model: &Model, al: &Alpha) -> Vec<usize> {
-    model.keys().map(|c| al.canon[c]).collect()
+#[derive(Default, Clone)]
+pub struct MapReport {
+    pub label: String,
+    pub keys: usize,
+    pub classes: usize,
+    pub depth: usize,
+    pub states: u64,
+    pub tainted_states: u64,
+    pub mixed_states: u64,
+    pub transitions: u64,
+    pub evals: u64,
+    pub resynced: u64,
+    pub probe_only: u64,
+    pub unrepresentable: u64,
+    pub equal_skipped: u64,
+    pub pruned_own: u64,
+    pub literals: u64,
+    pub literals_mixed: u64,
+    pub literals_dup: u64,
+    pub collisions: BTreeMap<String, u64>,
+    pub ops: BTreeMap<String, u64>,
+    pub per_depth: Vec<J>,
+    pub wall_s: f64,
+}
+
+impl MapReport {
+    fn merge(&mut self, o: &MapReport) {
+        self.transitions += o.transitions;
+        self.evals += o.evals;
+        self.resynced += o.resynced;
+        self.probe_only += o.probe_only;
+        self.unrepresentable += o.unrepresentable;
+        self.equal_skipped += o.equal_skipped;
+        self.pruned_own += o.pruned_own;
+        self.literals_mixed += o.literals_mixed;
+        self.literals_dup += o.literals_dup;
+        for (k, v) in &o.collisions {
+            *self.collisions.entry(k.clone()).or_insert(0) += v;
+        }
+        for (k, v) in &o.ops {
+            *self.ops.entry(k.clone()).or_insert(0) += v;
+        }
+    }
+    fn note(&mut self, v: &Verdict) {
+        if v.resynced {
+            self.resynced += 1;
+        }
+        if v.probe_only {
+            self.probe_only += 1;
+        }
+        if v.unrepresentable {
+            self.unrepresentable += 1;
+        }
+        if v.equal_skipped {
+            self.equal_skipped += 1;
+        }
+        for f in &v.findings {
+            if f.key == CROSS_KEY {
+                if let Some(p) = &f.pair {
+                    bump(&mut self.collisions, p.split(' ').next().unwrap_or("?"));
+                }
+            }
+        }
+        if v.findings.iter().any(|f| f.key != CROSS_KEY) {
+            self.pruned_own += 1;
+        }
+    }
+    fn common_json(&self) -> Vec<(&'static str, J)> {
+        vec![
+            ("re_synchronised_after_a_cross_type_collision", ji(self.resynced)),
+            ("only_probes_of_other_typed_keys_diverge", ji(self.probe_only)),
+            ("content_not_representable_not_expanded", ji(self.unrepresentable)),
+            ("other_violation_not_expanded", ji(self.pruned_own)),
+            ("equal_checks_skipped_tree_out_of_order", ji(self.equal_skipped)),
+            ("collisions_by_type_pair", jmap(&self.collisions)),
+            ("wall_s", J::F(self.wall_s)),
+        ]
+    }
+    pub fn json_bfs(&self) -> J {
+        let mut v = vec![
+            ("keys", ji(self.keys)),
+            ("equality_classes", ji(self.classes)),
+            ("max_sequence_length", ji(self.depth)),
+            ("canonical_states", ji(self.states)),
+            ("states_with_keys_of_two_or_more_types", ji(self.mixed_states)),
+            ("states_reached_through_a_cross_type_collision", ji(self.tainted_states)),
+            ("transitions", ji(self.transitions)),
+            ("per_operation", jmap(&self.ops)),
+            ("per_depth", J::A(self.per_depth.clone())),
+        ];
+        v.extend(self.common_json());
+        jo(v)
+    }
+    pub fn json_lit(&self) -> J {
+        let mut v = vec![
+            ("max_pairs", ji(self.depth)),
+            ("literals", ji(self.literals)),
+            ("literals_with_keys_of_two_or_more_types", ji(self.literals_mixed)),
+            ("literals_writing_one_key_twice_with_different_values", ji(self.literals_dup)),
+        ];
+        v.extend(self.common_json());
+        jo(v)
+    }
+}
+
+fn finding_json(kind: &str, program: &str, f: &Finding, model: J, observed: &Cell) -> J {
+    jo(vec![
+        ("kind", js(kind)),
+        ("program", js(program)),
+        ("model", model),
+        ("observed_map", js(render(observed))),
+        ("observer", js(f.observer)),
+        ("difference", js(f.detail.clone())),
+        ("colliding_type_pair", f.pair.clone().map(js).unwrap_or(J::Null)),
+    ])
 }
 
 // ------------------------------------------------------------------ part A: BFS
-fn explore_maps(cfg: &Cfg, rep: &Reporter, ev_: &mut Evidence, kdefs: &[KeyDef], depth: usize) {
+struct Node {
+    path: Vec<Op>,
+    model: Model,
+    tainted: bool,
+}
+
+/// `depth` is always explored completely; up to `extra` further levels are explored as long as the frontier
+/// stays within `budget` states (a count, not a clock: the bound reached is deterministic and is reported)
+fn explore_maps(cfg: &Cfg, rep: &Reporter, label: &str, kdefs: &[KeyDef], depth: usize, extra: usize, budget: usize) -> MapReport {
+    let t_all = std::time::Instant::now();
     let nk = kdefs.len();
     let mut ops: Vec<Op> = vec![];
     for k in 0..nk {
@@ -434,210 +686,157 @@ fn explore_maps(cfg: &Cfg, rep: &Reporter, ev_: &mut Evidence, kdefs: &[KeyDef],
     for k in 0..nk {
         ops.push(Op::Rem(k as u8));
     }
+    let classes: HashSet<u8> = kdefs.iter().map(|k| k.class).collect();
+    let mut report = MapReport { label: label.to_string(), keys: nk, classes: classes.len(), depth, states: 1, ..Default::default() };
     let mut visited: HashSet<u64> = HashSet::new();
     visited.insert(0);
-    let mut frontier: Vec<Vec<Op>> = vec![vec![]];
-    let mut states_total = 1u64;
-    let mut mixed_states = 0u64;
-    let mut per_depth = vec![];
-    let stats = Mutex::new(MapStats { transitions: 0, evals: 0, pruned: 0, collisions: BTreeMap::new(), ops: BTreeMap::new() });
+    let mut frontier: Vec<Node> = vec![Node { path: vec![], model: Model::new(), tainted: false }];
+    let stats = Mutex::new(MapReport::default());
+    let no_alt: BTreeMap<u8, Vec<u8>> = BTreeMap::new();
     // root state
     {
         let base = mk_base();
         let al = Alpha::new(&base, kdefs);
         let mut ob = Obs::new(&base);
         let m = eval_one(&base, "{ }").unwrap_or_else(|| machinery_error("C12: `{ }` does not evaluate"));
-        for f in check_map(&mut ob, &al, kdefs, &m, &Model::new()) {
-            rep.report_w(&format!("map-mismatch:{}", f.observer), 0, || jo(vec![("kind", js("map-bfs")), ("program", js("{ }")), ("difference", js(f.detail.clone()))]));
+        let v = judge(&mut ob, &al, kdefs, &m, &Model::new(), &no_alt, None, false);
+        for f in &v.findings {
+            rep.report_w(&f.key, 0, || finding_json("map-bfs", "{ }", f, J::A(vec![]), &m));
         }
     }
-    for d in 0..depth {
+    for d in 0..depth + extra {
+        if d >= depth && frontier.len() > budget {
+            break;
+        }
+        report.depth = d + 1;
         let t0 = std::time::Instant::now();
         let fr = &frontier;
-        let results: Vec<Vec<(usize, Vec<(u64, Op)>)>> = par_run(cfg.threads, fr.len(), 4, |_t, pull| {
+        let results: Vec<Vec<(usize, Vec<(Model, bool, Op)>)>> = par_run(cfg.threads, fr.len(), 4, |_t, pull| {
             let base = mk_base();
             let al = Alpha::new(&base, kdefs);
             let mut ob = Obs::new(&base);
             let mut out = vec![];
-            let mut st = MapStats { transitions: 0, evals: 0, pruned: 0, collisions: BTreeMap::new(), ops: BTreeMap::new() };
+            let mut st = MapReport::default();
             while let Some(r) = pull() {
                 for si in r {
-                    let path = &fr[si];
-                    let psrc = path_src(path, kdefs);
+                    let node = &fr[si];
+                    let psrc = path_src(&node.path, kdefs);
                     let m = match eval_one(&base, &psrc) {
                         Some(m) => m,
                         None => machinery_error(&format!("C12: a path that passed its checks no longer replays: {}", psrc)),
                     };
                     st.evals += 1;
-                    let mut model = Model::new();
-                    for op in path {
-                        apply(&mut model, *op, kdefs);
-                    }
                     let m_before = render(&m);
                     let mut succ = vec![];
                     for &op in &ops {
                         st.transitions += 1;
                         bump(&mut st.ops, op_name(op));
                         let osrc = format!("dup {}", op_src(op, kdefs));
-                        let mut model2 = model.clone();
-                        apply(&mut model2, op, kdefs);
-                        let mut involved = vec![op_key(op)];
-                        involved.extend(model_keys_involved(&model, &al));
+                        let mut expected = node.model.clone();
+                        apply(&mut expected, op, kdefs);
                         let program = format!("{} {}", psrc, osrc);
-                        let weight = wt((path.len() as u64 + 1) * 1000 + (psrc.len() + osrc.len()) as u64, &program);
+                        let weight = wt((node.path.len() as u64 + 1) * 1000 + (psrc.len() + osrc.len()) as u64, &program);
+                        // does the operation key collide, across types, with a key that is in the map?
+                        let cross_now = node.model.keys().map(|c| al.canon[c]).find(|e| cross_collide(&al, kdefs, *e, op_key(op))).map(|e| (e, op_key(op)));
                         let mut xs = base.clone();
                         xs.push_data(m.clone()).unwrap();
                         st.evals += 1;
                         let r = ev(&mut xs, &osrc);
                         let stack = take_stack(&mut xs);
-                        let mut fail: Vec<(String, J)> = vec![];
-                        match r {
-                            Err(p) => {
-                                fail.push((format!("panic:map-{}", op_name(op)), jo(vec![("program", js(program.clone())), ("panic", js(p))])));
-                            }
-                            Ok(Err(e)) => {
-                                fail.push((format!("map-op-error:{}", op_name(op)), jo(vec![("program", js(program.clone())), ("error", js(err_kind(&e))), ("expected", js("Ok"))])));
-                            }
-                            Ok(Ok(())) => {
-                                if stack.len() != 2 {
-                                    fail.push((format!("map-op-error:{}", op_name(op)), jo(vec![("program", js(program.clone())), ("stack", J::A(stack.iter().map(|c| js(render(c))).collect())), ("expected", js("old map, new map"))])));
-                                } else if render(&stack[0]) != m_before || render(&m) != m_before {
-                                    fail.push((
-                                        format!("map-old-handle-changed:{}", op_name(op)),
-                                        jo(vec![("program", js(program.clone())), ("old_handle_before", js(m_before.clone())), ("old_handle_after", js(render(&stack[0])))]),
-                                    ));
-                                } else {
-                                    let e0 = ob.evals;
-                                    for f in check_map(&mut ob, &al, kdefs, &stack[1], &model2) {
-                                        let (key, pair) = map_fail_key(&al, kdefs, &involved, &f, &mut st);
-                                        if fail.iter().any(|(k, _)| *k == key) {
-                                            continue;
-                                        }
-                                        fail.push((
-                                            key,
-                                            jo(vec![
-                                                ("program", js(program.clone())),
-                                                ("model_after", model_json(&model2, &al, kdefs)),
-                                                ("observed_map", js(render(&stack[1]))),
-                                                ("observer", js(f.observer.clone())),
-                                                ("difference", js(f.detail.clone())),
-                                                ("colliding_type_pair", pair.map(js).unwrap_or(J::Null)),
-                                            ]),
-                                        ));
-                                    }
-                                    if !fail.is_empty() {
-                                        // a violation is re-executed from its program text before it is recorded
-                                        let mut x = base.clone();
-                                        let r2 = ev(&mut x, &program);
-                                        let s2 = take_stack(&mut x);
-                                        let repro = matches!(r2, Ok(Ok(()))) && s2.len() == 2 && !check_map(&mut ob, &al, kdefs, &s2[1], &model2).is_empty();
-                                        if !repro {
-                                            machinery_error(&format!("C12: violation of `{}` does not reproduce on re-execution", program));
-                                        }
-                                    }
-                                    st.evals += ob.evals - e0;
-                                }
+                        let hard: Option<(String, J)> = match r {
+                            Err(p) => Some((format!("panic:map-{}", op_name(op)), jo(vec![("kind", js("map-bfs")), ("program", js(program.clone())), ("panic", js(p))]))),
+                            Ok(Err(e)) => Some((format!("map-op-error:{}", op_name(op)), jo(vec![("kind", js("map-bfs")), ("program", js(program.clone())), ("error", js(err_kind(&e))), ("expected", js("Ok"))]))),
+                            Ok(Ok(())) if stack.len() != 2 => Some((format!("map-op-error:{}", op_name(op)), jo(vec![("kind", js("map-bfs")), ("program", js(program.clone())), ("stack", J::A(stack.iter().map(|c| js(render(c))).collect())), ("expected", js("old map, new map"))]))),
+                            Ok(Ok(())) if render(&stack[0]) != m_before || render(&m) != m_before => Some((
+                                format!("map-old-handle-changed:{}", op_name(op)),
+                                jo(vec![("kind", js("map-bfs")), ("program", js(program.clone())), ("old_handle_before", js(m_before.clone())), ("old_handle_after", js(render(&stack[0])))]),
+                            )),
+                            Ok(Ok(())) => None,
+                        };
+                        if let Some((key, case)) = hard {
+                            st.pruned_own += 1;
+                            rep.report_w(&key, weight, || case);
+                            continue;
+                        }
+                        let e0 = ob.evals;
+                        let v = judge(&mut ob, &al, kdefs, &stack[1], &expected, &no_alt, cross_now, node.tainted);
+                        st.evals += ob.evals - e0;
+                        st.note(&v);
+                        if v.findings.iter().any(|f| f.key != CROSS_KEY) {
+                            // a violation outside the open finding is re-executed from its program text before it is recorded
+                            let mut x = base.clone();
+                            let r2 = ev(&mut x, &program);
+                            let s2 = take_stack(&mut x);
+                            let again = if matches!(r2, Ok(Ok(()))) && s2.len() == 2 { Some(judge(&mut ob, &al, kdefs, &s2[1], &expected, &no_alt, cross_now, node.tainted)) } else { None };
+                            let same_keys = again.map(|a| a.findings.iter().map(|f| f.key.clone()).collect::<Vec<_>>() == v.findings.iter().map(|f| f.key.clone()).collect::<Vec<_>>()).unwrap_or(false);
+                            if !same_keys {
+                                machinery_error(&format!("C12: violation of `{}` does not reproduce on re-execution", program));
                             }
                         }
-                        if fail.is_empty() {
-                            succ.push((model_key(&model2), op));
-                        } else {
-                            st.pruned += 1;
-                            for (key, mut case) in fail {
-                                if let J::O(v) = &mut case {
-                                    v.insert(0, ("kind".into(), js("map-bfs")));
-                                }
-                                rep.report_w(&key, weight, || case);
-                            }
+                        for f in &v.findings {
+                            rep.report_w(&f.key, weight, || finding_json("map-bfs", &program, f, model_json(&expected, &al, kdefs), &stack[1]));
+                        }
+                        if let Some((content, tainted)) = v.next {
+                            succ.push((content, tainted, op));
                         }
                     }
                     out.push((si, succ));
                 }
             }
-            let mut g = stats.lock().unwrap();
-            g.transitions += st.transitions;
-            g.evals += st.evals;
-            g.pruned += st.pruned;
-            for (k, v) in &st.collisions {
-                *g.collisions.entry(k.clone()).or_insert(0) += v;
-            }
-            for (k, v) in &st.ops {
-                *g.ops.entry(k.clone()).or_insert(0) += v;
-            }
+            stats.lock().unwrap().merge(&st);
             out
         });
         // deterministic merge: frontier order, then operation order
-        let mut all: Vec<(usize, Vec<(u64, Op)>)> = results.into_iter().flatten().collect();
+        let mut all: Vec<(usize, Vec<(Model, bool, Op)>)> = results.into_iter().flatten().collect();
         all.sort_by_key(|x| x.0);
         let mut next = vec![];
         for (si, succ) in all {
-            for (key, op) in succ {
-                if visited.insert(key) {
-                    let mut p = frontier[si].clone();
+            for (model, tainted, op) in succ {
+                if visited.insert(model_key(&model, tainted)) {
+                    let mut p = frontier[si].path.clone();
                     p.push(op);
-                    // count states whose keys are of more than one type (measured, for `nontrivial`)
-                    let mut model = Model::new();
-                    for o in &p {
-                        apply(&mut model, *o, kdefs);
-                    }
                     let tys: HashSet<&str> = model.keys().map(|c| kdefs.iter().find(|k| k.class == *c).unwrap().ty).collect();
                     if tys.len() >= 2 {
-                        mixed_states += 1;
+                        report.mixed_states += 1;
                     }
-                    next.push(p);
+                    if tainted {
+                        report.tainted_states += 1;
+                    }
+                    next.push(Node { path: p, model, tainted });
                 }
             }
         }
-        per_depth.push(jo(vec![("depth", ji(d + 1)), ("expanded_states", ji(frontier.len())), ("new_states", ji(next.len())), ("wall_s", J::F(t0.elapsed().as_secs_f64()))]));
-        states_total += next.len() as u64;
+        report.per_depth.push(jo(vec![("depth", ji(d + 1)), ("expanded_states", ji(frontier.len())), ("new_states", ji(next.len())), ("wall_s", J::F(t0.elapsed().as_secs_f64()))]));
+        report.states += next.len() as u64;
         frontier = next;
         if frontier.is_empty() {
             break;
         }
     }
     let g = stats.into_inner().unwrap();
-    ev_.states += states_total;
-    ev_.transitions += g.transitions;
-    ev_.traces += g.transitions;
-    ev_.evaluations += g.evals;
-    ev_.nontrivial += mixed_states;
-    ev_.add(
-        "map_bfs",
-        jo(vec![
-            ("max_sequence_length", ji(depth)),
-            ("operations_per_state", ji(ops.len())),
-            ("canonical_states", ji(states_total)),
-            ("states_with_keys_of_two_or_more_types", ji(mixed_states)),
-            ("transitions", ji(g.transitions)),
-            ("transitions_violating_and_pruned", ji(g.pruned)),
-            ("per_depth", J::A(per_depth)),
-            ("per_operation", jmap(&g.ops)),
-        ]),
-    );
-    ev_.add("collisions_by_type_pair_bfs", jmap(&g.collisions));
-    if g.ops.get("insert").copied().unwrap_or(0) == 0 || g.ops.get("remove").copied().unwrap_or(0) == 0 {
+    report.merge(&g);
+    if report.ops.get("insert").copied().unwrap_or(0) == 0 || report.ops.get("remove").copied().unwrap_or(0) == 0 {
         machinery_error("vacuous: C12 map BFS executed no insert or no remove");
     }
+    report.wall_s = t_all.elapsed().as_secs_f64();
+    report
 }
 
 // ------------------------------------------------------------------ part B: literals
-fn explore_literals(cfg: &Cfg, rep: &Reporter, ev_: &mut Evidence, kdefs: &[KeyDef], max_pairs: usize) {
+fn explore_literals(cfg: &Cfg, rep: &Reporter, label: &str, kdefs: &[KeyDef], max_pairs: usize) -> MapReport {
+    let t_all = std::time::Instant::now();
     let np = kdefs.len() * VALS.len();
     let mut offsets = vec![0usize];
     for n in 0..=max_pairs {
         offsets.push(offsets[n] + np.pow(n as u32));
     }
     let total = *offsets.last().unwrap();
-    let evals = AtomicU64::new(0);
-    let dup_lits = AtomicU64::new(0);
-    let mixed = AtomicU64::new(0);
-    let coll = Counters::new();
+    let stats = Mutex::new(MapReport::default());
     par_run(cfg.threads, total, 256, |_t, pull| {
         let base = mk_base();
         let al = Alpha::new(&base, kdefs);
         let mut ob = Obs::new(&base);
-        let mut st = MapStats { transitions: 0, evals: 0, pruned: 0, collisions: BTreeMap::new(), ops: BTreeMap::new() };
-        let (mut n_dup, mut n_mixed) = (0u64, 0u64);
+        let mut st = MapReport::default();
         while let Some(r) = pull() {
             for idx in r {
                 let n = (0..=max_pairs).find(|n| idx < offsets[n + 1]).unwrap();
@@ -657,112 +856,73 @@ fn explore_literals(cfg: &Cfg, rep: &Reporter, ev_: &mut Evidence, kdefs: &[KeyD
                 }
                 src.push('}');
                 let weight = wt((n as u64) * 1000 + src.len() as u64, &src);
-                // candidates per class: a key written twice may keep any of the values written for it
-                let mut cand: BTreeMap<u8, Vec<u8>> = BTreeMap::new();
+                // the model: pairs written left to right; a key written twice may keep any of the values written for it
+                let mut expected = Model::new();
+                let mut alt: BTreeMap<u8, Vec<u8>> = BTreeMap::new();
                 for (k, v) in &pairs {
-                    let e = cand.entry(kdefs[*k].class).or_default();
+                    expected.insert(kdefs[*k].class, *v as u8);
+                    let e = alt.entry(kdefs[*k].class).or_default();
                     if !e.contains(&(*v as u8)) {
                         e.push(*v as u8);
                     }
                 }
-                let involved: Vec<usize> = pairs.iter().map(|p| p.0).collect();
-                let tys: HashSet<&str> = involved.iter().map(|k| kdefs[*k].ty).collect();
+                if alt.values().any(|a| a.len() > 1) {
+                    st.literals_dup += 1;
+                }
+                let tys: HashSet<&str> = pairs.iter().map(|p| kdefs[p.0].ty).collect();
                 if tys.len() >= 2 {
-                    n_mixed += 1;
+                    st.literals_mixed += 1;
+                }
+                // two keys of the literal that collide across types
+                let mut cross_now = None;
+                'outer: for (i, a) in pairs.iter().enumerate() {
+                    for b in &pairs[i + 1..] {
+                        if cross_collide(&al, kdefs, a.0, b.0) {
+                            cross_now = Some((a.0, b.0));
+                            break 'outer;
+                        }
+                    }
                 }
                 let mut xs = base.clone();
                 st.evals += 1;
                 let r = ev(&mut xs, &src);
                 let stack = take_stack(&mut xs);
-                let mut fail: Vec<(String, J)> = vec![];
-                match r {
-                    Err(p) => fail.push(("panic:map-literal".into(), jo(vec![("program", js(src.clone())), ("panic", js(p))]))),
-                    Ok(Err(e)) => fail.push(("map-op-error:literal".into(), jo(vec![("program", js(src.clone())), ("error", js(err_kind(&e)))]))),
-                    Ok(Ok(())) if stack.len() != 1 => fail.push(("map-op-error:literal".into(), jo(vec![("program", js(src.clone())), ("stack_depth", ji(stack.len()))]))),
-                    Ok(Ok(())) => {
-                        let m = &stack[0];
-                        let mut model = Model::new();
-                        let mut ambiguous = false;
-                        for (c, vs) in &cand {
-                            if vs.len() == 1 {
-                                model.insert(*c, vs[0]);
-                            } else {
-                                ambiguous = true;
-                                // resolve by observation: any of the written values is allowed
-                                let ki = al.canon[c];
-                                let got = ob.run(&[m], &format!("{} get", kdefs[ki].src), &[], "");
-                                let pick = match &got {
-                                    Ok(s) if s.len() == 1 => vs.iter().find(|v| render(&al.vals[**v as usize]) == render(&s[0])).copied(),
-                                    _ => None,
-                                };
-                                model.insert(*c, pick.unwrap_or(*vs.last().unwrap()));
-                            }
-                        }
-                        if ambiguous {
-                            n_dup += 1;
-                        }
-                        let e0 = ob.evals;
-                        for f in check_map(&mut ob, &al, kdefs, m, &model) {
-                            let (key, pair) = map_fail_key(&al, kdefs, &involved, &f, &mut st);
-                            if fail.iter().any(|(k, _)| *k == key) {
-                                continue;
-                            }
-                            fail.push((
-                                key,
-                                jo(vec![
-                                    ("program", js(src.clone())),
-                                    ("model", model_json(&model, &al, kdefs)),
-                                    ("observed_map", js(render(m))),
-                                    ("observer", js(f.observer.clone())),
-                                    ("difference", js(f.detail.clone())),
-                                    ("colliding_type_pair", pair.map(js).unwrap_or(J::Null)),
-                                ]),
-                            ));
-                        }
-                        if !fail.is_empty() {
-                            // a violation is re-executed from its program text before it is recorded
-                            let repro = match eval_one(&base, &src) {
-                                Some(m2) => !check_map(&mut ob, &al, kdefs, &m2, &model).is_empty(),
-                                None => false,
-                            };
-                            if !repro {
-                                machinery_error(&format!("C12: violation of `{}` does not reproduce on re-execution", src));
-                            }
-                        }
-                        st.evals += ob.evals - e0;
+                let hard: Option<(String, J)> = match r {
+                    Err(p) => Some(("panic:map-literal".into(), jo(vec![("kind", js("map-literal")), ("program", js(src.clone())), ("panic", js(p))]))),
+                    Ok(Err(e)) => Some(("map-op-error:literal".into(), jo(vec![("kind", js("map-literal")), ("program", js(src.clone())), ("error", js(err_kind(&e)))]))),
+                    Ok(Ok(())) if stack.len() != 1 => Some(("map-op-error:literal".into(), jo(vec![("kind", js("map-literal")), ("program", js(src.clone())), ("stack_depth", ji(stack.len()))]))),
+                    Ok(Ok(())) => None,
+                };
+                if let Some((key, case)) = hard {
+                    st.pruned_own += 1;
+                    rep.report_w(&key, weight, || case);
+                    continue;
+                }
+                let e0 = ob.evals;
+                // a literal with colliding keys is a path with a collision on it: the tree may be out of order
+                let v = judge(&mut ob, &al, kdefs, &stack[0], &expected, &alt, cross_now, cross_now.is_some());
+                st.evals += ob.evals - e0;
+                st.note(&v);
+                if v.findings.iter().any(|f| f.key != CROSS_KEY) {
+                    let again = eval_one(&base, &src).map(|m2| judge(&mut ob, &al, kdefs, &m2, &expected, &alt, cross_now, cross_now.is_some()));
+                    let same_keys = again.map(|a| a.findings.iter().map(|f| f.key.clone()).collect::<Vec<_>>() == v.findings.iter().map(|f| f.key.clone()).collect::<Vec<_>>()).unwrap_or(false);
+                    if !same_keys {
+                        machinery_error(&format!("C12: violation of `{}` does not reproduce on re-execution", src));
                     }
                 }
-                for (key, mut case) in fail {
-                    if let J::O(v) = &mut case {
-                        v.insert(0, ("kind".into(), js("map-literal")));
-                    }
-                    rep.report_w(&key, weight, || case);
+                for f in &v.findings {
+                    rep.report_w(&f.key, weight, || finding_json("map-literal", &src, f, model_json(&expected, &al, kdefs), &stack[0]));
                 }
             }
         }
-        evals.fetch_add(st.evals, Ordering::Relaxed);
-        dup_lits.fetch_add(n_dup, Ordering::Relaxed);
-        mixed.fetch_add(n_mixed, Ordering::Relaxed);
-        coll.merge(&st.collisions);
+        stats.lock().unwrap().merge(&st);
     });
-    ev_.states += total as u64;
-    ev_.transitions += total as u64;
-    ev_.traces += total as u64;
-    ev_.evaluations += evals.load(Ordering::Relaxed);
-    ev_.nontrivial += mixed.load(Ordering::Relaxed);
-    ev_.add(
-        "map_literals",
-        jo(vec![
-            ("max_pairs", ji(max_pairs)),
-            ("literals", ji(total)),
-            ("literals_with_keys_of_two_or_more_types", ji(mixed.load(Ordering::Relaxed))),
-            ("literals_writing_one_key_twice_with_different_values", ji(dup_lits.load(Ordering::Relaxed))),
-        ]),
-    );
-    ev_.add("collisions_by_type_pair_literals", coll.json());
-    if max_pairs >= 2 && mixed.load(Ordering::Relaxed) == 0 {
-        machinery_error("vacuous: C12 literal sweep has no literal with keys of two types");
-    }
+    let mut report = MapReport { label: label.to_string(), keys: kdefs.len(), depth: max_pairs, ..Default::default() };
+    let g = stats.into_inner().unwrap();
+    report.merge(&g);
+    report.literals = total as u64;
+    report.wall_s = t_all.elapsed().as_secs_f64();
+    report
 }
 
 // ------------------------------------------------------------------ equal? on the key alphabet
@@ -1412,7 +1572,7 @@ pub fn run(cfg: &Cfg) -> i32 {
     let lit_pairs = env_usize("VERIF_C12_PAIRS", if cfg.quick() { 3 } else { 4 });
     let vec_len = env_usize("VERIF_C12_LEN", if cfg.quick() { 4 } else { 5 });
     let sort_len = env_usize("VERIF_C12_SORTLEN", if cfg.quick() { 4 } else { 6 });
-    ev_.rule = "non-trivial = map states / literals whose keys are of two or more types, index cases whose index is not a plain in-range one (negative, past the end, isize / i128 extremes), unsorted sort inputs; all counted cases are distinct (canonical model states, distinct literals, distinct (vector, word, index) triples)".into();
+    ev_.rule = "non-trivial = map states of a key family holding two or more keys, mixed-alphabet map states / literals whose keys are of two or more types, index cases whose index is not a plain in-range one (negative, past the end, isize / i128 extremes), unsorted sort inputs; all counted cases are distinct (canonical model states, distinct literals, distinct (vector, word, index) triples)".into();
     ev_.add("key_alphabet", J::A(kdefs.iter().map(|k| jo(vec![("literal", js(k.src.clone())), ("type", js(k.ty)), ("equality_class", ji(k.class as i64))])).collect()));
     ev_.add("value_alphabet", J::A(VALS.iter().map(|s| js(*s)).collect()));
     let only = std::env::var("VERIF_C12_ONLY").ok();
@@ -1421,13 +1581,50 @@ pub fn run(cfg: &Cfg) -> i32 {
     if want("equal") {
         check_equality(&rep, &mut ev_, &kdefs);
     }
-    if want("bfs") {
-        explore_maps(cfg, &rep, &mut ev_, &kdefs, depth);
-        println!("C12 map BFS: depth {} done, {:.1}s", depth, t0.elapsed().as_secs_f64());
-    }
-    if want("literals") {
-        explore_literals(cfg, &rep, &mut ev_, &kdefs, lit_pairs);
-        println!("C12 map literals: <= {} pairs done, {:.1}s", lit_pairs, t0.elapsed().as_secs_f64());
+    if want("bfs") || want("literals") || want("maps") {
+        // (1) one exploration per single-type key family: no cross-type collision can occur inside a family,
+        //     so these run to their full depth and must be violation-free
+        let fam_depth = env_usize("VERIF_C12_FAMILY_DEPTH", if cfg.quick() { 6 } else { 7 });
+        let mut fam_reports = vec![];
+        for (name, fk) in key_families() {
+            let label = format!("family:{}", name);
+            let r = explore_maps(cfg, &rep, &label, &fk, fam_depth, 0, 0);
+            let l = explore_literals(cfg, &rep, &label, &fk, lit_pairs);
+            if r.resynced + r.probe_only + r.unrepresentable + l.resynced + l.probe_only + l.unrepresentable > 0 {
+                // a cross-type collision inside a single-type family would mean the family is not single-type
+                machinery_error(&format!("C12: key family {} met a cross-type collision", name));
+            }
+            if (r.states < 3 && r.pruned_own == 0) || r.transitions == 0 || l.literals == 0 {
+                machinery_error(&format!("vacuous: C12 key family {} explored nothing", name));
+            }
+            ev_.states += r.states + l.literals;
+            ev_.transitions += r.transitions + l.literals;
+            ev_.traces += r.transitions + l.literals;
+            ev_.evaluations += r.evals + l.evals;
+            ev_.nontrivial += r.states.saturating_sub(1 + r.classes as u64 * 2);
+            fam_reports.push((label, r, l));
+        }
+        let (fs, ft, fl): (u64, u64, u64) = fam_reports.iter().fold((0, 0, 0), |a, (_, r, l)| (a.0 + r.states, a.1 + r.transitions, a.2 + l.literals));
+        println!("C12 map families: {} families, {} states, {} transitions, {} literals, {:.1}s", fam_reports.len(), fs, ft, fl, t0.elapsed().as_secs_f64());
+        ev_.add("map_families", J::A(fam_reports.iter().map(|(n, r, l)| jo(vec![("alphabet", js(n.clone())), ("bfs", r.json_bfs()), ("literals", l.json_lit())])).collect()));
+        ev_.add("map_families_total", jo(vec![("families", ji(fam_reports.len())), ("states", ji(fs)), ("transitions", ji(ft)), ("literals", ji(fl))]));
+        // (2) the mixed-type alphabet of DESIGN.md; divergences caused by the open cross-type collision are filed
+        //     under it and the search continues from the implementation's observed content. While that finding
+        //     is open few mixed states exist, so up to 3 more levels are explored within a fixed state budget.
+        let budget = env_usize("VERIF_C12_BUDGET", if cfg.quick() { 3_000 } else { 20_000 });
+        let r = explore_maps(cfg, &rep, "mixed", &kdefs, depth, 3, budget);
+        println!("C12 map BFS (mixed types): depth {} done, {} states, {} transitions, {} re-synchronised, {:.1}s", r.depth, r.states, r.transitions, r.resynced, t0.elapsed().as_secs_f64());
+        let l = explore_literals(cfg, &rep, "mixed", &kdefs, lit_pairs);
+        println!("C12 map literals (mixed types): <= {} pairs done, {:.1}s", lit_pairs, t0.elapsed().as_secs_f64());
+        ev_.states += r.states + l.literals;
+        ev_.transitions += r.transitions + l.literals;
+        ev_.traces += r.transitions + l.literals;
+        ev_.evaluations += r.evals + l.evals;
+        ev_.nontrivial += r.mixed_states + l.literals_mixed;
+        if lit_pairs >= 2 && l.literals_mixed == 0 {
+            machinery_error("vacuous: C12 literal sweep has no literal with keys of two types");
+        }
+        ev_.add("map_mixed", jo(vec![("alphabet", js("mixed")), ("nominal_max_sequence_length", ji(depth)), ("extra_levels_state_budget", ji(budget)), ("bfs", r.json_bfs()), ("literals", l.json_lit())]));
     }
     if want("seq") {
         explore_sequences(cfg, &rep, &mut ev_, vec_len);
@@ -1448,7 +1645,9 @@ pub fn run(cfg: &Cfg) -> i32 {
         "string `length` may count characters or bytes; `slice` on strings counts characters".into(),
         "`slice` clamps (pinned by test_str_slice / test_vec_slice); an index of magnitude >= 2^62 may be refused with an error instead".into(),
         "`join` is checked on vectors without empty nested vectors (separator placement around them is not stated)".into(),
-        "a state reached through a violating transition is not expanded (the violation is reported at the first divergence)".into(),
+        "a divergence is filed under the open finding map-key-collision:cross-type only when two keys that differ in type and compare Equal in the implementation's key order are involved (operation key against an entry, probe key against an entry, two keys of one literal), or when an earlier step of the same path had such a collision (it leaves the tree out of order, so later lookups may go astray); every other divergence keeps its own key".into(),
+        "after a cross-type collision the search continues from the implementation's observed content (foreach) as the model state; map equality against a rebuilt literal is skipped for such states (counted)".into(),
+        "a state reached through a violation outside the open finding is not expanded".into(),
     ];
     conclude(&ev_, &rep)
 }
